@@ -1,6 +1,6 @@
 (* C18 - concrete witnesses: non-vacuity of the specifications and the refuted clause *)
 From Coq Require Import QArith List Bool Arith Lia.
-From DV Require Import Model.C18Model Proofs.C18Lists Proofs.C18Tree Proofs.C18Monad Proofs.C18BD Proofs.C18Coal.
+From DV Require Import Model.C18Model Proofs.C18Lists Proofs.C18Tree Proofs.C18Monad Proofs.C18BD Proofs.C18Coal Proofs.C18CC.
 Import ListNotations.
 Open Scope nat_scope.
 
@@ -53,3 +53,17 @@ Example pb_example_done :
   exists t r, pb_sim 3 2%Q [DExp 1%Q; DIndex 0; DExp (1#2)%Q; DIndex 1; DExp (1#4)%Q] = Done t r
               /\ leaf_taxa t = [Some 0; Some 1; Some 2].
 Proof. vm_compute. eexists _, _. split; reflexivity. Qed.
+
+(* contained coalescent: species (A:1, B:1) with one gene each; the two lineages can only meet in
+   the root population, after each has spent the full length of its species edge *)
+Definition ex_A : stree := SN 1 (Some [0]) (Some 1%Q) 1%Q [].
+Definition ex_species : stree := SN 0 None None 1%Q [ex_A; SN 2 (Some [1]) (Some 1%Q) 2%Q []].
+
+Example cc_example_done :
+  exists g r h, cc_sim ex_species [DExp (1#2)%Q; DSample [0; 1]] = Done g r /\ joins g 0 1 h /\
+                Qle (up_len ex_A 0) h /\ fst r = [].
+Proof.
+  vm_compute. eexists _, _, _. split; [reflexivity|]. split; [|split; [|reflexivity]].
+  - eapply (j_here _ _ _ 0 1); [reflexivity|reflexivity|discriminate|left; reflexivity|left; reflexivity].
+  - discriminate.
+Qed.
